@@ -274,7 +274,7 @@ pub struct Case {
 }
 
 pub const MAX_PROD: usize = 4;
-const STEP_TIMEOUT: Duration = Duration::from_secs(10);
+const STEP_TIMEOUT: Duration = Duration::from_secs(4);
 
 impl Case {
     pub fn new(init: Init) -> Case {
